@@ -12,6 +12,7 @@ C12 -- a refused operation leaves the file as it was. Decided statically:
 import ast
 import json
 import os
+import re
 from .common import Ctx, surface, api_key, describe_path, ENTITY_CLASSES, CONTAINER_CLASSES
 from nixsa.model import AnalysisError
 from nixsa.values import show, vsymbols, is_const
@@ -31,6 +32,23 @@ def public_root(name):
 
 def short(q):
     return (q or "?").split(":")[-1]
+
+
+PUBLIC = re.compile(r"^[A-Z]\w*\.(?!_)[A-Za-z]\w*(@set|@del)?$|^[A-Z]\w*\.__(setitem|delitem|getitem|contains)__$")
+
+
+def refusal_key(func, cls, explicit=True):
+    """findings are keyed by public API names only: private helpers may be renamed / extracted without changing behaviour"""
+    f = short(func)
+    f = f.split(".<locals>.")[0]
+    tail = "" if explicit else ":implicit"
+    if PUBLIC.match(f):
+        return "%s:%s%s" % (f, cls, tail)
+    return "%s%s" % (cls, tail)
+
+
+def write_key(op, key):
+    return "%s:%s" % (op, key)
 
 
 def inner_params(x):
@@ -54,30 +72,22 @@ def triples(ctx, cn, name, tb, f, paths):
         if not params:
             continue
         ws = [e for e in p.events if ctx.fx.is_observable_write(e) and e.idx < x.nevents]
-        rk = "%s:%s%s" % (short(x.func), x.cls, "" if x.explicit else ":implicit")
+        rk = refusal_key(x.func, x.cls, x.explicit)
         if not ws:
             pre.setdefault(rk, set()).update(params)
             continue
         w = ws[0]
-        wk = "%s:%s:%s" % (short(w.func), w.op.split(".")[-1], ctx.fx.key(w))
+        wk = write_key(w.op.split(".")[-1], ctx.fx.key(w))
         out.setdefault((wk, rk), (p, x, w))
     return out, pre
 
 
 def wild_match(entries, api, write, refusal):
-    """triage entries may generalise over the API member ('*') and the writing function ('*:<op>:<key>')"""
+    """triage entries may generalise over the API member ('*')"""
     for e in entries:
-        if "*" not in e["api"] + e["write"]:
+        if e["api"] != "*":
             continue
-        if e["api"] != "*" and e["api"] != api:
-            continue
-        w = e["write"]
-        if w.startswith("*"):
-            if not write.endswith(w[1:]):
-                continue
-        elif w != write:
-            continue
-        if e["refusal"] == refusal:
+        if e["write"] == write and e["refusal"] == refusal:
             return e
     return None
 
@@ -116,20 +126,21 @@ def run(M, rep, tier, only=None):
             raise AnalysisError("C12: %s has too many abstract paths (%s)" % (key, e))
         trs, pre = triples(ctx, cn, name, tb, f, paths)
         # loops: a second iteration may refuse after the first one wrote (small members only)
-        if len(paths) <= 60 and any(isinstance(n, (ast.For, ast.While)) for n in ast.walk(f.node)):
+        if len(paths) <= (400 if tier == "thorough" else 60) and any(isinstance(n, (ast.For, ast.While)) for n in ast.walk(f.node)):
             if ctx2 is None:
                 ctx2 = Ctx(M, unroll=2)
             try:
                 t2, p2 = triples(ctx2, cn, name, tb, f, ctx2.paths(f, cn, max_paths=6000))
                 for k, v in t2.items():
                     if "elem(" in k[0] or "#" in k[0]:
-                        k = ("loop:" + k[0].split(":")[0] + ":" + k[0].split(":")[1], k[1])
+                        k = ("loop:" + k[0].split(":")[0], k[1])
                     trs.setdefault(k, v)
             except Budget:
                 pass
         inv = {}
         for rk, ps in pre.items():
-            inv.setdefault(rk.split(":")[1], set()).update(ps)
+            parts = [x for x in rk.split(":") if x != "implicit"]
+            inv.setdefault(parts[-1], set()).update(ps)
         current_inv[key] = {k: sorted(v) for k, v in inv.items()}
         if not trs:
             rep.ok(R1, key, "%d paths, no write before an argument refusal" % len(paths))
@@ -137,7 +148,7 @@ def run(M, rep, tier, only=None):
             rep.ok(R1, key, "%d paths, %d triaged write-before-refusal triple(s)" % (len(paths), len(trs)))
         for (wk, rk), (p, x, w) in sorted(trs.items()):
             if "elem(" in wk:
-                wk = "loop:" + ":".join(wk.split(":")[:2])
+                wk = "loop:" + wk.split(":")[0]
             ident = "%s | %s | %s" % (key, wk, rk)
             dumped.append({"api": key, "write": wk, "refusal": rk, "params": sorted(inner_params(x)[0]),
                            "site": x.site, "write_site": w.site})
